@@ -58,13 +58,27 @@ def decide(out, obs, total, st, n, nf):
     out.cov["rule"] = ("%d (value, spelling) cases enumerated by MC_Literals (exhaustive over its value sets, radices 2..36, forms and encodings) + %d seeded random floats in shortest "
                        "decimal form; non-trivial = the spelling contains an escape, a separator or a non-ASCII character") % (n, nf)
     out.assumptions += ["random floats: the shortest decimal form is produced by Python's repr and compared textually with Rust's {:?} of the value read back (binary64 parsing/printing itself is trusted)"]
+    failing = {fl["line"] for fl in fails}
+    origin = {}
+    if failing:
+        for ln, o in enumerate(vlib.read_ndjson(obs)):
+            if ln in failing:
+                origin[ln] = {k: v for k, v in o.items() if k not in ("runs", "case")}
     for fl in fails:
         txt = "".join(chr(c) for c in fl["src"])
         for f in fl["fails"]:
             out.fail(f.get("kf", "NEW"), "[%s] %s literal %r: %s %s" % (f["store"], fl["kind"], txt, f["why"], (f.get("msg") or "")[:80]),
-                     {"literal": txt, "input": fl["src"], "kind": fl["kind"], "store": f["store"], "why": f["why"], "got": f.get("got"), "msg": f.get("msg")},
+                     {"literal": txt, "input": fl["src"], "kind": fl["kind"], "store": f["store"], "why": f["why"], "got": f.get("got"), "msg": f.get("msg"), "lit_case": origin.get(fl["line"])},
                      family="[%s] %s: %s %s" % (f["store"], fl["kind"], f["why"], (f.get("msg") or "")[:40]))
 
 
 def replay(out, path):
-    raise vlib.ToolError("re-run `bin/check C14 quick`; cases are regenerated deterministically")
+    case = json.load(open(path))["case"].get("lit_case")
+    if not case:
+        raise vlib.ToolError("the replay file carries no lit_case: re-run the full check")
+    wd = vlib.workdir(out.pid)
+    cases = os.path.join(wd, "cases.ndjson")
+    vlib.write_ndjson(cases, [case])
+    obs = os.path.join(wd, "obs.ndjson")
+    st = vlib.run_workers("lit", cases, 1, obs, timeout=15)
+    decide(out, obs, 1, st, 1, 0)
